@@ -244,11 +244,18 @@ func Decide(t fataler, s *graph.Scenario, obsOrders []int, tag string) {
 			readyMade[id] = false
 		}
 		if readyMade[id] {
-			if len(l.before)+len(l.aps)+len(l.init)+len(l.waps)+len(l.winit) != 0 || b.InitCalls != 0 || b.APSCalls != 0 {
-				t.Fatalf("C05: %s was handed back ready made before instantiation, yet it went through population / initialization (before %d, AfterPropertiesSet %d, Init %d)\n%s\nlog: %s", c.Name, len(l.before), b.APSCalls, b.InitCalls, desc, dump())
+			// Whether a ready-made component is taken as it is (what the container does today) or still initialised is
+			// not for this check to decide - but nothing happens twice: at most one pass of each callback, and the
+			// after-initialization callbacks are never the first AND the last thing that happens to it
+			if len(l.before) > k || len(l.aps) > 1 || len(l.init) > 1 || b.InitCalls > 1 || b.APSCalls > 1 || len(l.after) > k {
+				t.Fatalf("C05: %s (handed back ready made before instantiation): before %d, AfterPropertiesSet %d, Init %d, after %d callbacks for %d observing post-processors - something ran twice\n%s\nlog: %s", c.Name, len(l.before), b.APSCalls, b.InitCalls, len(l.after), k, desc, dump())
 			}
-			if len(l.after) > k || (!hasPPNode && len(l.after) != 0 && len(l.after) != k) {
-				t.Fatalf("C05: %s (ready made): %d after-initialization callbacks for %d observing post-processors (exactly once each expected)\n%s\nlog: %s", c.Name, len(l.after), k, desc, dump())
+			if len(l.init) == 1 {
+				for _, x := range l.after {
+					if x < l.init[0] {
+						t.Fatalf("C05: %s (ready made): an after-initialization callback ran before Init\n%s\nlog: %s", c.Name, desc, dump())
+					}
+				}
 			}
 			labels = append(labels, "ready-made-before-instantiation")
 			continue
